@@ -41,4 +41,7 @@ def run(ctx):
     import sdo_trace
     sdo_trace.run(ctx, 400 if q else 15000, ndlg=10, nsrv=2, profile="C20")
     sdo_trace.run(ctx, 300 if q else 10000, ndlg=10, nsrv=1, profile="C20")
+    # reset = fresh start of the node as a whole (product model CoFull: TLC checks it on every reset of every walk, the probe resets once more)
+    import full_check
+    full_check.run(ctx, 500 if q else 20000)
 VARIANTS = {"default": (), "n2": ("CO_SSDO_N=2",)}
